@@ -23,7 +23,8 @@ namespace {
 using cppcms::impl::base_cache;
 
 int g_key_pad[64];   // per-run: key i is padded to this length (long keys exercise allocation failures while the key itself is copied into shared memory)
-std::string key_name(int k){ std::string n = "k" + std::to_string(k); int pad = (k >= 0 && k < 64) ? g_key_pad[k] : 0; if(pad > (int)n.size()) n += std::string((size_t)pad - n.size(),(char)('A' + k % 26)); return n; }
+bool g_colliding = false;   // "k0", "j@", "iP", "h`" have the same cppcms string_hash: one bucket chain in every table size
+std::string key_name(int k){ static const char *coll[] = {"k0","j@","iP","h`"}; std::string n = g_colliding && k >= 0 && k < 4 ? std::string(coll[k]) : "k" + std::to_string(k); int pad = (k >= 0 && k < 64) ? g_key_pad[k] : 0; if(pad > (int)n.size()) n += std::string((size_t)pad - n.size(),(char)('A' + k % 26)); return n; }
 std::string trig_name(int t){ return t >= 100 ? key_name(t-100) : "t" + std::to_string(t); }
 std::string make_val(int opidx,int len){
 	std::string v = "v" + std::to_string(opidx) + "|";
@@ -75,7 +76,7 @@ struct E2 : Engine {
 			J ops = J::arr(); for(int i=0;i<elen;i++){ ops.push(enum_op(code & 15)); code >>= 4; }
 		p["ops"] = ops; return p;
 		}
-		p["mode"] = "random";
+		p["mode"] = "random"; p["coll"] = (int)(r.below(3) == 0);
 		bool c08 = prop == "C08";
 		bool process = r.below(100) < (c08 ? 25 : 12);
 		bool iface = !process && !c08 && r.below(100) < 35;
@@ -261,6 +262,7 @@ struct E2 : Engine {
 		simk::begin(sp);
 		c.process = plan.gets("backend") == "process"; c.c08 = plan.gets("prop") == "C08";
 		{ memset(g_key_pad,0,sizeof(g_key_pad)); const J &kp = plan.get("key_pad"); for(size_t i=0;i<kp.size() && i<64;i++) g_key_pad[i] = (int)std::max<int64_t>(0,std::min<int64_t>(kp.a[i].as_int(),4<<20)); }
+		g_colliding = plan.geti("coll") != 0;
 		unsigned limit = (unsigned)std::max<int64_t>(0,plan.geti("limit")); c.cands.resize(1); c.M().limit = limit;
 		bool iface = plan.geti("iface") && !c.process;
 		const J &ops = plan.get("ops");
